@@ -11,6 +11,14 @@ export VERIF_TIER="$TIER"
 export VERIF_SEED="${VERIF_SEED:-1}"
 REPO="${VERIF_REPO:-/repo}"
 export VERIF_REPO_DIR="$REPO"
+# Validation against a seeded change (VERIF_REPO=<scratch copy>): evidence and replays go to
+# $VERIF_MUT_OUT (default /dev/shm/verif-mut-out), never into /verif/evidence.
+EVDIR="$VERIF_DIR"
+if [ "$REPO" != "/repo" ]; then
+  export VERIF_OUT_DIR="${VERIF_MUT_OUT:-/dev/shm/verif-mut-out}"
+  mkdir -p "$VERIF_OUT_DIR"
+  EVDIR="$VERIF_OUT_DIR"
+fi
 H="$VERIF_DIR/harness"
 
 # property -> (package under harness/cmd, build kind)
@@ -75,6 +83,6 @@ esac
 RC=$?
 
 if [ $# -eq 0 ] && [ $RC -ne 2 ]; then
-  $(command -v python3-vt || echo python3) "$VERIF_DIR/tools/validate_evidence.py" "$VERIF_DIR/evidence/$ID.json" || { echo "BROKEN-CHECK property=$ID evidence file invalid"; exit 2; }
+  $(command -v python3-vt || echo python3) "$VERIF_DIR/tools/validate_evidence.py" "$EVDIR/evidence/$ID.json" || { echo "BROKEN-CHECK property=$ID evidence file invalid"; exit 2; }
 fi
 exit $RC
